@@ -19,6 +19,7 @@ def run(prog, tier, extra=None):
     res = Result("C05", "other")
     R1 = res.rule("C05.gate", "the longest-chain decision and the golden-ticket density verdict gate what follows", floor=2)
     R2 = res.rule("C05.strictly-longer", "is_new_chain_the_longest_chain accepts only a strictly longer chain with at least the burn fee", floor=2)
+    R4 = res.rule("C05.density-anchor", "the golden-ticket density is evaluated at the tip of the candidate chain", floor=1)
     R3 = res.rule("C05.density-constants", "the density rule is computed from MIN_GOLDEN_TICKETS_NUMERATOR/DENOMINATOR", floor=2)
 
     # R1a
@@ -60,6 +61,35 @@ def run(prog, tier, extra=None):
             res.add(Finding(R1, "C05.gate|density", "Blockchain::validate continues (%s) although the golden-ticket density check failed" % kind, bv.loc(s["bb"]), {"path": describe_path(bv, path)}))
         else:
             res.sample({"rule": R1, "site": bv.loc(s["bb"]), "verdict": "a failing density check only returns (false, _)"})
+
+    # R4: the density rule is evaluated at the candidate tip: the window handed to is_golden_ticket_count_valid starts at the
+    # parent of new_chain[0] (the chain slices are ordered tip first) and the "has ticket" flag is that block's own
+    chv = Chaser(bv)
+    for bb, t in bv.calls():
+        if call_name(t) != BC + "is_golden_ticket_count_valid":
+            continue
+        res.instance(R4)
+        args = [chv.origin(a) for a in t["args"]]
+
+        def from_tip(e, field):
+            ok_field = has_field(e, "block::Block", field)
+            idx0 = False
+            for x in walk(e):
+                if x[0] == "call" and x[1] == "std::ops::Index::index" and len(x[2]) == 2:
+                    base, ix = strip(x[2][0]), x[2][1]
+                    if base[0] == "param" or (base[0] == "field" and base[3] == "new_chain"):
+                        idx0 = idx0 or (ix[0] == "const" and ix[1] == 0)
+                if x[0] in ("index", "cindex"):
+                    if (x[0] == "cindex" and x[2] == 0) or (x[0] == "index" and x[2][0] == "const" and x[2][1] == 0):
+                        idx0 = True
+            return ok_field and idx0
+        a_hash = next((a for a in args if has_field(a, "block::Block", "previous_block_hash")), None)
+        a_flag = next((a for a in args if has_field(a, "block::Block", "has_golden_ticket")), None)
+        if a_hash is None or a_flag is None or not from_tip(a_hash, "previous_block_hash") or not from_tip(a_flag, "has_golden_ticket"):
+            res.add(Finding(R4, "C05.density-anchor", "Blockchain::validate does not evaluate the golden-ticket density at the candidate tip (new_chain[0]): %s"
+                            % [show(a)[:70] for a in args[1:3]], bv.loc(bb)))
+        else:
+            res.sample({"rule": R4, "site": bv.loc(bb), "window_starts_at": show(a_hash)[:80], "verdict": "anchored at new_chain[0]"})
 
     # R2
     lc = prog.body(BC + "is_new_chain_the_longest_chain")
